@@ -66,7 +66,7 @@ def scan_forbidden():
 ALLOWED_AXIOMS = set()  # the development is axiom-free; see DESIGN.md 6
 
 
-def check_obligations(prop):
+def check_obligations(prop, tier="quick"):
     """Compile Props/<prop>.v (dependencies first) and audit its output.
 
     Returns dict(ok, obligations, discharged, theorems, axioms, detail).
@@ -119,6 +119,17 @@ def check_obligations(prop):
     if closed + len(axioms) < n_print:
         res["detail"] = "Print Assumptions output incomplete"
         return res
+    if tier == "thorough":
+        # independent re-check of the compiled file and everything it depends on
+        r = subprocess.run(["timeout", "2400", "coqchk", "-silent", "-Q", ".", "Iso", "-o", "Iso.Props.%s" % prop],
+                           cwd=COQ, capture_output=True, text=True)
+        out = r.stdout + r.stderr
+        m = re.search(r"\* Axioms:\s*(.*?)\n\s*\n", out, re.S)
+        axioms_chk = m.group(1).strip() if m else "?"
+        res["coqchk"] = axioms_chk
+        if r.returncode != 0 or axioms_chk != "<none>":
+            res["detail"] = "coqchk: rc=%d axioms=%s\n%s" % (r.returncode, axioms_chk, out[-1500:])
+            return res
     res["ok"] = True
     res["discharged"] = res["obligations"]
     return res
@@ -293,7 +304,7 @@ def write_evidence(prop, tier, seed, obl, cases, nontrivial, hist, samples,
         checker_cmd="tools/build.sh Props/%s.vo Extract/Extract.vo && coqc -Q . Iso Props/%s.v (full .vo build via coq_makefile; Print Assumptions audited)" % (prop, prop),
         trusted_base=TRUSTED_BASE + ["axioms reported by Print Assumptions: %s" % (
             ", ".join(obl["axioms"]) or "none (Closed under the global context)")],
-        theorems=obl["theorems"],
+        theorems=obl["theorems"], coqchk_axioms=obl.get("coqchk", "not run in the quick tier"),
         evaluations=len(cases), distinct_nontrivial=nontrivial,
         rule=rule, samples=samples, distribution=hist,
         traces_validated_against_impl=len(cases),
